@@ -209,6 +209,7 @@ func drawStop(rt *rapid.T, o gen.HistOpt, kinds []string) *StopCase {
 			c.PerturbMicros = 100
 		}
 	}
+	c.ErrLater = rapid.IntRange(0, 2).Draw(rt, "error_asked_later") == 0
 	return c
 }
 
@@ -459,7 +460,7 @@ func enumStops(f func(*StopCase) bool, kinds []string) int {
 							if idx%envNShards != envShard {
 								continue
 							}
-							c := &StopCase{H: h, Fault: Fault{Kind: k, At: at, Sub: idx, ErrCode: 1236, Msg: "enumerated master error"}, Pacing: pacing, Handler: mode, GateCall: g, SlowN: 3}
+							c := &StopCase{H: h, Fault: Fault{Kind: k, At: at, Sub: idx, ErrCode: 1236, Msg: "enumerated master error"}, Pacing: pacing, Handler: mode, GateCall: g, SlowN: 3, ErrLater: (idx/envNShards)%3 == 2}
 							if k == "mapper_cols" {
 								c.Fault.Sub = -1
 							}
